@@ -67,8 +67,8 @@ def prove(hyps, goal, timeout_s=10.0, want_model=True, fallback=True):
         except Exception:
             smt = ""
         if smt:
-            for which in ("cvc5", "z3-4.8"):
-                rr = _cli_check(smt, timeout_s, which)
+            for which in ("cvc5",):
+                rr = _cli_check(smt, min(timeout_s, 6.0), which)
                 if rr == "unsat":
                     return dict(status="unsat", model=None, backend=which, seconds=time.time() - t0, smt="")
                 if rr == "sat":
